@@ -109,7 +109,12 @@ impl<'a> Reduced<'a> {
 
 impl ReducedWord {
     pub const fn one(ring: &ConstSingleDivisor) -> Self {
-        Self(1 << ring.shift())
+        if ring.divisor() == 1 {
+            // the only residue modulo 1 is zero
+            Self(0)
+        } else {
+            Self(1 << ring.shift())
+        }
     }
 
     #[inline]
